@@ -1,10 +1,15 @@
 package props
 
 import (
+	"bytes"
+	"compress/flate"
 	crand "crypto/rand"
+	"encoding/base64"
 	"errors"
 	"fmt"
 	"io"
+	"net/http/httptest"
+	"net/url"
 	"regexp"
 	"runtime"
 	"strings"
@@ -175,8 +180,8 @@ func runC18(c *mon.Ctx) {
 	wg.Wait()
 	// phase 2: built messages over many SP instances and kinds
 	msgCols := make([]collected, G)
-	kinds := []string{"authn-nosig", "authn-doc", "logoutreq-nosig", "logoutreq", "logoutresp-nosig", "logoutresp"}
-	var kindCount [6]atomic.Int64
+	kinds := []string{"authn-nosig", "authn-doc", "logoutreq-nosig", "logoutreq", "logoutresp-nosig", "logoutresp", "auth-redirect", "auth-redirect"}
+	var kindCount [8]atomic.Int64
 	for g := 0; g < G; g++ {
 		wg.Add(1)
 		go func(g int) {
@@ -197,7 +202,7 @@ func runC18(c *mon.Ctx) {
 				}
 				sp := ksp.SP
 				ki := (i / G) % len(kinds)
-				if ki%2 == 1 && i%8 != 1 {
+				if ki < 6 && ki%2 == 1 && i%8 != 1 {
 					ki-- // signed variants are 1 in 8 (cost)
 				}
 				var doc *etree.Document
@@ -215,6 +220,24 @@ func runC18(c *mon.Ctx) {
 					doc, err = sp.BuildLogoutResponseDocumentNoSig("st", "r")
 				case "logoutresp":
 					doc, err = sp.BuildLogoutResponseDocument("st", "r")
+				case "auth-redirect":
+					// the HTTP entry point, fed a browser request that carries what proxies and clients add: none of it
+					// may find its way into the identifier
+					req := httptest.NewRequest("GET", "https://sp.example.test/login?id=_fromquery&RelayState=x&SAMLRequest=y", nil)
+					rid := fmt.Sprintf("web-1/%06d", i%7)
+					for _, h := range []string{"X-Request-Id", "X-Request-ID", "X-Correlation-Id", "Request-Id", "X-Amzn-Trace-Id", "Traceparent", "X-Trace-Id", "X-B3-TraceId", "Idempotency-Key", "X-Session-Id"} {
+						req.Header.Set(h, rid)
+					}
+					req.Header.Set("Cookie", "session="+rid+"; saml_request_id="+rid)
+					req.Header.Set("User-Agent", rid)
+					rec := httptest.NewRecorder()
+					wasSigning := sp.SignAuthnRequests
+					sp.SignAuthnRequests = false // redirect binding without query signature: the cheap path
+					err = sp.AuthRedirect(rec, req, "relay-"+rid)
+					sp.SignAuthnRequests = wasSigning
+					if err == nil {
+						doc, err = docFromRedirect(rec.Header().Get("Location"))
+					}
 				}
 				if err != nil || doc == nil || doc.Root() == nil {
 					badFormat.Add(1)
@@ -496,4 +519,25 @@ func runC18(c *mon.Ctx) {
 	if len(cols[0].ids) > 0 && len(msgCols[0].ids) > 0 {
 		cs.Sample(map[string]any{"uuid": cols[0].ids[0], "message_id": "_" + msgCols[0].ids[0], "identifiers": total, "reads_in_NewV4": spy.inUUID.Load()})
 	}
+}
+
+// docFromRedirect recovers the AuthnRequest document from a redirect-binding URL.
+func docFromRedirect(loc string) (*etree.Document, error) {
+	u, err := url.Parse(loc)
+	if err != nil {
+		return nil, err
+	}
+	comp, err := base64.StdEncoding.DecodeString(u.Query().Get("SAMLRequest"))
+	if err != nil {
+		return nil, err
+	}
+	x, err := io.ReadAll(flate.NewReader(bytes.NewReader(comp)))
+	if err != nil {
+		return nil, err
+	}
+	d := etree.NewDocument()
+	if err := d.ReadFromBytes(x); err != nil {
+		return nil, err
+	}
+	return d, nil
 }
